@@ -276,7 +276,8 @@ pub struct Code {
     pub ex: Ex,
 }
 
-#[salsa::tracked]
+#[cfg_attr(feature = "persist", salsa::tracked(persist))]
+#[cfg_attr(not(feature = "persist"), salsa::tracked)]
 #[derive(Debug)]
 pub struct TS<'db> {
     #[returns(ref)]
@@ -289,7 +290,8 @@ pub struct TS<'db> {
     pub g: V,
 }
 
-#[salsa::tracked]
+#[cfg_attr(feature = "persist", salsa::tracked(persist))]
+#[cfg_attr(not(feature = "persist"), salsa::tracked)]
 #[derive(Debug)]
 pub struct TSC<'db> {
     #[returns(ref)]
@@ -302,22 +304,26 @@ pub struct TSC<'db> {
     pub g: V,
 }
 
-#[salsa::interned(revisions = 1)]
+#[cfg_attr(feature = "persist", salsa::interned(revisions = 1, persist))]
+#[cfg_attr(not(feature = "persist"), salsa::interned(revisions = 1))]
 pub struct IS1<'db> {
     #[returns(ref)]
     pub data: D,
 }
-#[salsa::interned(revisions = 2)]
+#[cfg_attr(feature = "persist", salsa::interned(revisions = 2, persist))]
+#[cfg_attr(not(feature = "persist"), salsa::interned(revisions = 2))]
 pub struct IS2<'db> {
     #[returns(ref)]
     pub data: D,
 }
-#[salsa::interned(revisions = 3)]
+#[cfg_attr(feature = "persist", salsa::interned(revisions = 3, persist))]
+#[cfg_attr(not(feature = "persist"), salsa::interned(revisions = 3))]
 pub struct IS3<'db> {
     #[returns(ref)]
     pub data: D,
 }
-#[salsa::interned(revisions = usize::MAX)]
+#[cfg_attr(feature = "persist", salsa::interned(revisions = usize::MAX, persist))]
+#[cfg_attr(not(feature = "persist"), salsa::interned(revisions = usize::MAX))]
 pub struct ISX<'db> {
     #[returns(ref)]
     pub data: D,
@@ -328,6 +334,7 @@ pub struct ISX<'db> {
 pub struct Acc(pub u8);
 
 #[derive(Clone, Copy, Debug, PartialEq, Eq, Hash, salsa::SalsaValue)]
+#[cfg_attr(feature = "persist", derive(serde::Serialize, serde::Deserialize))]
 pub enum TRef<'db> {
     A(TS<'db>),
     B(TSC<'db>),
@@ -344,6 +351,7 @@ impl TRef<'_> {
 
 /// Result of an `Mk` node.
 #[derive(Clone, Debug, PartialEq, Eq, salsa::SalsaValue)]
+#[cfg_attr(feature = "persist", derive(serde::Serialize, serde::Deserialize))]
 pub struct MkOut<'db> {
     pub structs: Vec<TRef<'db>>,
     pub aux: Vec<u8>,
@@ -735,12 +743,14 @@ fn body(db: &dyn QDb, f: F, n: Code, salt: u8) -> V {
     V::new(x)
 }
 
-#[salsa::tracked]
+#[cfg_attr(feature = "persist", salsa::tracked(persist))]
+#[cfg_attr(not(feature = "persist"), salsa::tracked)]
 pub fn ev(db: &dyn QDb, n: Code) -> V {
     body(db, F::Ev, n, 0)
 }
 
-#[salsa::tracked(no_eq)]
+#[cfg_attr(feature = "persist", salsa::tracked(no_eq, persist))]
+#[cfg_attr(not(feature = "persist"), salsa::tracked(no_eq))]
 pub fn ev_noeq(db: &dyn QDb, n: Code) -> V {
     body(db, F::NoEq, n, 0)
 }
@@ -754,12 +764,14 @@ pub fn ev_lru(db: &dyn QDb, n: Code) -> V {
     body(db, F::Lru, n, 0)
 }
 
-#[salsa::tracked]
+#[cfg_attr(feature = "persist", salsa::tracked(persist))]
+#[cfg_attr(not(feature = "persist"), salsa::tracked)]
 pub fn ev2(db: &dyn QDb, n: Code, salt: u8) -> V {
     body(db, F::Ev2, n, salt)
 }
 
-#[salsa::tracked]
+#[cfg_attr(feature = "persist", salsa::tracked(persist))]
+#[cfg_attr(not(feature = "persist"), salsa::tracked)]
 pub fn ev0(db: &dyn QDb) -> V {
     let cx = db.cx();
     let act = Act::enter(cx, F::Ev0, 0);
@@ -806,7 +818,8 @@ pub fn fb(db: &dyn QDb, n: Code) -> V {
     body(db, F::Fb, n, 0)
 }
 
-#[salsa::tracked]
+#[cfg_attr(feature = "persist", salsa::tracked(persist))]
+#[cfg_attr(not(feature = "persist"), salsa::tracked)]
 pub fn mk<'db>(db: &'db dyn QDb, n: Code) -> MkOut<'db> {
     let cx = db.cx();
     let act = Act::enter(cx, F::Mk, n.as_id().as_bits());
@@ -871,7 +884,8 @@ pub fn mk<'db>(db: &'db dyn QDb, n: Code) -> MkOut<'db> {
     MkOut { structs, aux }
 }
 
-#[salsa::tracked]
+#[cfg_attr(feature = "persist", salsa::tracked(persist))]
+#[cfg_attr(not(feature = "persist"), salsa::tracked)]
 pub fn on_ts<'db>(db: &'db dyn QDb, t: TS<'db>) -> V {
     let cx = db.cx();
     let act = Act::enter(cx, F::OnTs, t.as_id().as_bits());
@@ -882,7 +896,8 @@ pub fn on_ts<'db>(db: &'db dyn QDb, t: TS<'db>) -> V {
     V::new(x)
 }
 
-#[salsa::tracked]
+#[cfg_attr(feature = "persist", salsa::tracked(persist))]
+#[cfg_attr(not(feature = "persist"), salsa::tracked)]
 pub fn on_ts2<'db>(db: &'db dyn QDb, t: TS<'db>) -> V {
     let cx = db.cx();
     let act = Act::enter(cx, F::OnTs2, t.as_id().as_bits());
@@ -905,7 +920,8 @@ pub fn sp<'db>(db: &'db dyn QDb, t: TS<'db>) -> V {
     V::new(x)
 }
 
-#[salsa::tracked]
+#[cfg_attr(feature = "persist", salsa::tracked(persist))]
+#[cfg_attr(not(feature = "persist"), salsa::tracked)]
 pub fn on_tsc<'db>(db: &'db dyn QDb, t: TSC<'db>) -> V {
     let cx = db.cx();
     let act = Act::enter(cx, F::OnTsc, t.as_id().as_bits());
@@ -918,7 +934,8 @@ pub fn on_tsc<'db>(db: &'db dyn QDb, t: TSC<'db>) -> V {
 
 macro_rules! on_is_fn {
     ($name:ident, $ty:ident, $tag:expr) => {
-        #[salsa::tracked]
+        #[cfg_attr(feature = "persist", salsa::tracked(persist))]
+        #[cfg_attr(not(feature = "persist"), salsa::tracked)]
         pub fn $name<'db>(db: &'db dyn QDb, h: $ty<'db>) -> V {
             let cx = db.cx();
             let act = Act::enter(cx, F::OnIs($tag), h.as_id().as_bits());
@@ -1185,8 +1202,42 @@ impl Sess {
                 self.db.trigger_cancellation();
                 Out::Unit
             }
-            Op::RoundTrip => panic!("RoundTrip is handled by the persist driver"),
+            #[cfg(feature = "persist")]
+            Op::RoundTrip => {
+                self.roundtrip();
+                Out::Unit
+            }
+            #[cfg(not(feature = "persist"))]
+            Op::RoundTrip => panic!("RoundTrip needs the persist configuration"),
         }
+    }
+
+    /// Serialize the database to JSON, deserialize it into a fresh database and continue there.
+    #[cfg(feature = "persist")]
+    pub fn roundtrip(&mut self) {
+        use salsa::plumbing::ZalsaDatabase;
+        let json = serde_json::to_string(&<dyn salsa::Database>::as_serialize(&mut self.db)).expect("serialize database");
+        if std::env::var("MC_DUMP_JSON").is_ok() {
+            eprintln!("{json}");
+        }
+        let old_cx = self.db.cx_arc();
+        let mut db2 = Db::new();
+        <dyn salsa::Database>::deserialize(&mut db2, &mut serde_json::Deserializer::from_str(&json)).expect("deserialize database");
+        let cx = db2.cx_arc();
+        for i in 0..4 {
+            cx.ext[i].store(old_cx.ext[i].load(SeqCst), SeqCst);
+        }
+        let z = db2.zalsa();
+        let mut cells: Vec<Cell> = Cell::ingredient(&db2).entries(z).map(|e| e.as_struct()).collect();
+        cells.sort_by_key(|c| c.as_id().as_bits());
+        let mut nodes: Vec<Code> = Code::ingredient(&db2).entries(z).map(|e| e.as_struct()).collect();
+        nodes.sort_by_key(|c| c.as_id().as_bits());
+        let old = old_cx.tabs();
+        assert_eq!(cells.len(), old.cells.len(), "restored database has a different number of cells");
+        assert_eq!(nodes.len(), old.nodes.len(), "restored database has a different number of nodes");
+        let _ = cx.tabs.set(Tabs { cells, nodes, kinds: old.kinds.clone(), root0: old.root0 });
+        cx.rec(Rec::Op(u32::MAX));
+        self.db = db2;
     }
 
     /// Current value of cell c as stored in the database (top-level read).
